@@ -1,6 +1,6 @@
 #!/bin/bash
 # usage: try.sh <property> <patch-file | revert:<commit>>   — runs one check against a scratch worktree with the change applied
-P=$1; CH=$2; WT=/tmp/vw
+P=$1; CH=$2; WT=${VW:-/tmp/vw}
 [ -d $WT ] || git -C /repo worktree add --detach $WT HEAD >/dev/null 2>&1
 git -C $WT checkout -q --detach $(git -C /repo rev-parse HEAD) 2>/dev/null; git -C $WT checkout -- . ; git -C $WT clean -fdq
 if [[ $CH == revert:* ]]; then git -C /repo show ${CH#revert:} | git -C $WT apply -R || { echo "cannot revert"; exit 3; }
